@@ -150,3 +150,13 @@ CLAIMS['C18']['text'] = ('FULL for P8E0: for every x and every coefficient array
     'Built from C18.fdp_run (accumulating ANY list of <= 7 operand pairs into a cleared Q8E0 and converting back equals Spec.fdp), which composes the all-histories theorem C04.q8_history, the to_posit sweep over 2^28 quire states and 256-case operand facts. '
     'PARTIAL: P16E1 and P32E2 (no proof of Q16E1/Q32E2 to_posit) are covered by correspondence and the oracle Spec.poly on structured inputs incl. cancellation and NaR/zero coefficients, all 20 forms.')
 CLAIMS['C18']['technique'] = 'Lean 4 symbolic end-to-end theorems (history induction + native_decide read-out sweep + rational algebra, generated stage compositions) on generated model; differential correspondence against exact-rational staged dot products'
+
+_SCAN = (' EXHAUSTIVE SEARCH on every run (a search feeding the specification, not a proof): the compiled release crate is compared with a crate-independent exact integer reference in the harness '
+         '(own posit decoder/encoder, u128 arithmetic) on the WHOLE input space of %s; every disagreement becomes a case judged by Spec; on the unchanged tree there are 0 candidates (coverage.exhaustive_searches).')
+CLAIMS['C01']['text'] += _SCAN % 'P16E1 + - * / (all 2^32 operand pairs)'
+CLAIMS['C02']['text'] += _SCAN % 'from_f32 of P32E2, P16E1 and P8E0 (all 2^32 f32 patterns)'
+CLAIMS['C03']['text'] += _SCAN % 'P32E2 to_f64 and to_f32 (all 2^32 patterns)'
+CLAIMS['C06']['text'] += _SCAN % 'P32E2 sqrt (all 2^31-1 positive patterns)'
+CLAIMS['C07']['text'] += _SCAN % 'P32E2 to_i32/to_u32/to_i64/to_u64/from_i32/from_u32 (all 2^32 inputs each)'
+CLAIMS['C08']['text'] += _SCAN % 'P32E2 -> P16E1 and P32E2 -> P8E0 (all 2^32 sources)'
+CLAIMS['C09']['text'] += _SCAN % 'P32E2 round/floor/ceil/trunc/fract (all 2^32 patterns)'
